@@ -1,5 +1,6 @@
 import DracoModel.KdTreeAttr
 import DracoProofs.KdTreeStack
+import DracoProofs.RobustValid
 /-
   C03 for the kd-tree point cloud decoder model: whenever `decodeKdGeometry` reports success the
   geometry is structurally valid (`Geometry.valid`), for every input.
@@ -240,11 +241,14 @@ theorem decodeInternal_out (S : Src σ) (P : Params) (s : σ) (pts : List (List 
   have := tree_out S P _ _ _ _ _ (by simp) h
   simpa using this
 
-/-- `DecodePoints`: the points written and `num_decoded_points()` -/
-theorem decodePoints_out (level dim maxPoints : Nat) (s s' : DSt) (n : Nat) (pts : List (List Nat))
-    (h : decodePoints level dim maxPoints s = (some (n, pts), s')) :
+theorem decodePointsL_false (level dim maxPoints : Nat) :
+    decodePointsL false level dim maxPoints = decodePoints level dim maxPoints := rfl
+
+/-- `DecodePoints` (every bitstream version): the points written and `num_decoded_points()` -/
+theorem decodePointsL_out (legacy : Bool) (level dim maxPoints : Nat) (s s' : DSt) (n : Nat) (pts : List (List Nat))
+    (h : decodePointsL legacy level dim maxPoints s = (some (n, pts), s')) :
     pts.length = n ∧ ∀ p ∈ pts, p.length = dim := by
-  unfold decodePoints at h
+  unfold decodePointsL at h
   obtain ⟨bl, s1, _, h⟩ := bind_some h
   obtain ⟨_, s2, _, h⟩ := bind_some h
   obtain ⟨np, s3, _, h⟩ := bind_some h
@@ -257,7 +261,7 @@ theorem decodePoints_out (level dim maxPoints : Nat) (s s' : DSt) (n : Nat) (pts
     obtain ⟨axis, s7, _, h⟩ := bind_some h
     obtain ⟨half, s8, _, h⟩ := bind_some h
     simp only at h
-    cases hdi : decodeInternal (coders false) ⟨dim, bl, level == 6, np⟩ ⟨num, rem, axis, half⟩ with
+    cases hdi : decodeInternal (coders legacy) ⟨dim, bl, level == 6, np⟩ ⟨num, rem, axis, half⟩ with
     | none => rw [hdi] at h; simp [fail] at h
     | some r =>
       obtain ⟨pts', st⟩ := r
@@ -266,6 +270,12 @@ theorem decodePoints_out (level dim maxPoints : Nat) (s s' : DSt) (n : Nat) (pts
       obtain ⟨d1, d2⟩ := decodeInternal_out _ _ _ _ _ hdi
       rw [← h.1.1, ← h.1.2]
       exact ⟨d2.symm, d1⟩
+
+/-- `DecodePoints`: the points written and `num_decoded_points()` -/
+theorem decodePoints_out (level dim maxPoints : Nat) (s s' : DSt) (n : Nat) (pts : List (List Nat))
+    (h : decodePoints level dim maxPoints s = (some (n, pts), s')) :
+    pts.length = n ∧ ∀ p ∈ pts, p.length = dim :=
+  decodePointsL_out false level dim maxPoints s s' n pts h
 
 /-! ### the attribute layer -/
 
@@ -611,13 +621,215 @@ theorem decodeKdAttributes_valid (opts : DecOpts) (numPoints : Nat) (descs : Lis
   rw [← h.1]
   exact zip3With_valid opts numPoints cl.2 dp2 (by omega) hp2 cl.1 ts2 hrel hkas
 
+/-! ### bitstreams older than 2.3 (DracoModel/KdTreeLegacy.lean) -/
+
+section legacy
+open Draco.Robust
+
+theorem classifyLegacy_ok : ∀ (descs : List AttDesc) (dim : Nat) (r : List KdAtt × Nat),
+    (∀ d ∈ descs, DescOk d) → classifyLegacy descs dim = some r →
+    dim ≤ r.2 ∧ ∀ ka ∈ r.1, KdAttOK r.2 ka ∧ ka.kind = 0 ∧ ka.dataSize ≤ 4 := by
+  intro descs
+  induction descs with
+  | nil =>
+    intro dim r _ h
+    simp only [classifyLegacy, Option.some.injEq] at h
+    rw [← h]; simp
+  | cons d ds ih =>
+    intro dim r hd h
+    obtain ⟨hnc, hdt1, hdt2⟩ := hd d (by simp)
+    simp only [classifyLegacy] at h
+    split at h
+    · cases h
+    · rename_i hle
+      cases hr : classifyLegacy ds (dim + d.numComponents) with
+      | none => rw [hr] at h; cases h
+      | some r2 =>
+        rw [hr] at h
+        simp only [Option.some.injEq] at h
+        obtain ⟨i1, i2⟩ := ih (dim + d.numComponents) r2 (fun x hx => hd x (by simp [hx])) hr
+        rw [← h]
+        refine ⟨by simp only; omega, ?_⟩
+        intro ka hka
+        simp only [List.mem_cons] at hka
+        rcases hka with rfl | hka
+        · exact ⟨⟨hnc, Or.inl rfl, fun _ => ⟨rfl, dataTypeLength_pos _ hdt1 hdt2⟩, by simp, by simp only; omega⟩,
+            rfl, by simp only; omega⟩
+        · exact i2 ka hka
+
+theorem post_decodePointsL (legacy : Bool) (level dim maxPoints : Nat) :
+    Post (decodePointsL legacy level dim maxPoints)
+      (fun dp => dp.2.length = dp.1 ∧ ∀ p ∈ dp.2, p.length = dim) := by
+  intro s dp s' h
+  obtain ⟨n, pts⟩ := dp
+  exact decodePointsL_out legacy level dim maxPoints s s' n pts h
+
+theorem legacyRowBytes_length (dim : Nat) (ka : KdAtt) (hka : KdAttOK dim ka) (p : List Nat)
+    (hp : p.length = dim) : (legacyRowBytes ka p).length = ka.desc.numComponents * ka.dataSize := by
+  unfold legacyRowBytes
+  rw [flatMap_length_const _ ka.dataSize _ (fun x _ => wle_length _ _), attRow_length dim ka hka p hp]
+
+theorem legacy_attribute_valid (np : Nat) (ka : KdAtt) (dim : Nat) (hka : KdAttOK dim ka) (hk : ka.kind = 0)
+    (rows : List Bytes) (hl : rows.length = np)
+    (hr : ∀ r ∈ rows, r.length = ka.desc.numComponents * ka.dataSize) :
+    (ka.desc.toAttribute np rows.flatten).valid np = true := by
+  obtain ⟨hs1, hs2⟩ := hka.size (by omega)
+  have hlen : rows.flatten.length = np * (ka.desc.numComponents * ka.dataSize) := by
+    have := flatMap_length_const (fun (r : Bytes) => r) _ rows hr
+    rw [List.flatMap_id'] at this
+    rw [this, hl]
+  simp only [Attribute.valid, AttDesc.toAttribute, Attribute.stride, Bool.and_eq_true, decide_eq_true_eq,
+    ge_iff_le]
+  refine ⟨⟨⟨hka.nc, by rw [← hs1]; exact hs2⟩, ?_⟩, Nat.le_refl _⟩
+  rw [hlen, ← hs1, Nat.mul_comm ka.dataSize]
+
+theorem post_decodeLegacyInt (legacy : Bool) (numPoints : Nat) (kas : List KdAtt) (dim : Nat)
+    (hkas : ∀ ka ∈ kas, KdAttOK dim ka ∧ ka.kind = 0 ∧ ka.dataSize ≤ 4) :
+    Post (decodeLegacyInt legacy numPoints kas dim) (fun atts => ∀ a ∈ atts, a.valid numPoints = true) := by
+  unfold decodeLegacyInt
+  apply post_bind_any; intro level
+  apply post_bind_require; intro _
+  apply post_bind_any; intro np
+  apply post_bind_require; intro hnp
+  have hnp : np = numPoints := by simpa using hnp
+  subst hnp
+  apply post_bind_any; intro _
+  apply post_bind_any; intro _
+  apply post_bind_any; intro _
+  refine post_bind (post_decodePointsL legacy level dim np) ?_
+  intro dp ⟨hp1, hp2⟩
+  apply post_bind_require; intro hreq
+  have hreq : dp.1 = np := by simpa using hreq
+  apply post_pure
+  intro a ha
+  simp only [List.mem_map] at ha
+  obtain ⟨ka, hka, rfl⟩ := ha
+  obtain ⟨hok, hk, _⟩ := hkas ka hka
+  have := legacy_attribute_valid np ka dim hok hk (dp.2.map (legacyRowBytes ka)) (by simp [hp1, hreq])
+    (by
+      intro r hr
+      simp only [List.mem_map] at hr
+      obtain ⟨p, hp, rfl⟩ := hr
+      exact legacyRowBytes_length dim ka hok p (hp2 p hp))
+  rwa [← List.flatMap_def] at this
+
+theorem floatPointBytes_length (r b : Nat) (p : List Nat) : (floatPointBytes r b p).length = 12 := by
+  simp [floatPointBytes, wle_length]
+
+theorem post_floatTreeInternal (legacy : Bool) (np : Nat) :
+    Post (floatTreeInternal legacy np) (fun r => r.2.2.length = np) := by
+  unfold floatTreeInternal
+  apply post_bind_any; intro _
+  apply post_bind_require; intro _
+  apply post_bind_any; intro _
+  apply post_bind_any; intro np2
+  apply post_bind_require; intro h1
+  have h1 : np2 = np := by simpa using h1
+  apply post_bind_any; intro _
+  apply post_bind_require; intro _
+  apply post_bind_any; intro pts
+  apply post_bind_require; intro h2
+  have h2 : pts.length = np2 := by simpa using h2
+  apply post_pure
+  simp only
+  omega
+
+theorem post_decodeLegacyFloat (legacy : Bool) (numPoints : Nat) (ka : KdAtt) (dim : Nat)
+    (hka : KdAttOK dim ka) (hk : ka.kind = 0) (h4 : ka.dataSize ≤ 4) (h3 : ka.desc.numComponents = 3) :
+    Post (decodeLegacyFloat legacy numPoints ka) (fun a => a.valid numPoints = true) := by
+  unfold decodeLegacyFloat
+  apply post_bind_any; intro _
+  apply post_bind_any; intro np
+  apply post_bind_require; intro hnp
+  have hnp : np = numPoints := by simpa using hnp
+  subst hnp
+  apply post_bind_any; intro _
+  apply post_bind_any; intro _
+  apply post_bind_any; intro _
+  refine post_bind (post_floatTreeInternal legacy np) ?_
+  intro r hr
+  apply post_pure
+  have := legacy_attribute_valid np ka dim hka hk
+    (r.2.2.map fun p => (floatPointBytes r.2.1 r.1 p).take (ka.dataSize * ka.desc.numComponents))
+    (by simp [hr])
+    (by
+      intro x hx
+      simp only [List.mem_map] at hx
+      obtain ⟨p, _, rfl⟩ := hx
+      rw [List.length_take, floatPointBytes_length, h3]
+      omega)
+  rwa [← List.flatMap_def] at this
+
+theorem post_decodeKdAttributesLegacy (numPoints : Nat) (descs : List AttDesc) (hd : ∀ d ∈ descs, DescOk d) :
+    Post (decodeKdAttributesLegacy numPoints descs) (fun atts => ∀ a ∈ atts, a.valid numPoints = true) := by
+  unfold decodeKdAttributesLegacy
+  apply post_bind_any; intro _
+  cases hcl : classifyLegacy descs 0 with
+  | none => exact post_fail
+  | some cl =>
+    obtain ⟨_, hkas⟩ := classifyLegacy_ok descs 0 cl hd hcl
+    simp only
+    apply post_bind_any; intro ver
+    apply post_bind_any; intro method
+    unfold decodeLegacyMethod
+    apply post_ite
+    · intro _
+      rcases hk1 : cl.1 with _ | ⟨ka, _ | ⟨kb, rest⟩⟩
+      · exact post_fail
+      · obtain ⟨hok, hk, h4⟩ := hkas ka (by rw [hk1]; simp)
+        simp only
+        apply post_ite
+        · intro h3
+          refine post_bind (post_decodeLegacyFloat _ numPoints ka cl.2 hok hk h4 h3) ?_
+          intro a ha
+          apply post_pure
+          intro x hx
+          simp only [List.mem_singleton] at hx
+          rw [hx]; exact ha
+        · intro _; exact post_fail
+      · exact post_fail
+    · intro _
+      apply post_ite
+      · intro _; exact post_decodeLegacyInt _ numPoints cl.1 cl.2 hkas
+      · intro _; exact post_fail
+
+/-- **C03 for the legacy kd-tree decoder model** (bitstreams 1.0 … 2.2, integer and float
+    method): a geometry returned with success is valid -/
+theorem decodeKdGeometryLegacy_valid (s s' : DSt) (g : Geometry)
+    (h : decodeKdGeometryLegacy s = (some g, s')) : g.valid = true := by
+  have hpost : Post decodeKdGeometryLegacy (fun g => g.valid = true) := by
+    unfold decodeKdGeometryLegacy
+    apply post_bind_any; intro np
+    apply post_bind_require; intro _
+    apply post_bind_any; intro _
+    refine post_bind (P := fun atts => ∀ a ∈ atts, a.valid np.toNat = true) ?_ ?_
+    · unfold decodePointAttributesKdLegacy
+      apply post_bind_any; intro nd
+      refine post_bind (post_replicateM' _ _ decodeAttDescs_post nd) ?_
+      intro descss hds
+      refine post_bind (post_mapM' (decodeKdAttributesLegacy np.toNat) (fun ds => ∀ d ∈ ds, DescOk d) _
+        (fun ds hd => post_decodeKdAttributesLegacy np.toNat ds hd) descss hds.2) ?_
+      intro attss hatt
+      apply post_pure
+      intro a ha
+      simp only [List.mem_flatten] at ha
+      obtain ⟨l, hl, hal⟩ := ha
+      exact hatt.2 l hl a hal
+    · intro atts hatts
+      apply post_pure
+      simp only [Geometry.valid, List.all_nil, Bool.true_and, List.all_eq_true]
+      exact hatts
+  exact hpost s g s' h
+
+end legacy
+
 /-- **C03 for the kd-tree decoder model**: a geometry returned with success is valid -/
 theorem decodeKdGeometry_valid (opts : DecOpts) (s s' : DSt) (g : Geometry)
     (h : decodeKdGeometry opts s = (some g, s')) : g.valid = true := by
   unfold decodeKdGeometry at h
   obtain ⟨ver, s1, _, h⟩ := bind_some h
   split at h
-  · simp [failWith] at h
+  · exact decodeKdGeometryLegacy_valid s1 s' g h
   obtain ⟨np, s2, _, h⟩ := bind_some h
   obtain ⟨_, s3, _, h⟩ := bind_some h
   simp only at h
